@@ -496,6 +496,42 @@ def hAdj : Handler := fun args res => do
     (if raw.any (fun r => (outputRegs r.2.2.2).contains ipKey) then ["ipwrite"] else [])
   return { corr, oracle := if bad then some "an independent adjacent pair cannot be swapped" else none, tags }
 
+open Mltwist.Deps.Spec in
+/-- the instruction with original address `a`, standing at position `k` of a block of `n` instructions -/
+def sinsAt (raw : List (Nat × Nat × Nat × List Effect)) (n a k : Nat) : SIns :=
+  match raw.find? (fun r => r.2.1 == a) with
+  | some (t, a, len, efs) =>
+    let isTerm := k + 1 == n && !(BasicBlock.Spec.realTargets a len efs).isEmpty
+    ⟨t, a, len, efs, isTerm⟩
+  | none => ⟨6, a, 0, [], true⟩
+
+open Mltwist.Deps.Spec in
+/-- `depsadjh`: C06 after a history.  The harness applies the operations, then swaps every adjacent pair of the
+CURRENT order of every block (and swaps it back).  The oracle rebuilds the current instruction sequence from the
+reported original addresses and demands that every independent adjacent pair was swappable (and the swap could be
+undone).  No model result is compared (the histories are tied to the model by the `deps` stream). -/
+def hAdjH : Handler := fun args res => do
+  let ((_, raw), _) ← runP (do let p ← pProgram; let ops ← pList pOp; pure (p, ops)) args
+  if res == ["PANIC"] || res == ["CRASH"] then
+    return { oracle := some "panic", tags := ["panic"] }
+  if res.length == 1 && (res.headD "").startsWith "err:" then
+    return { oracleNA := true, tags := ["parse-error"] }
+  let parts := (splitAt "|" res).drop 1
+  let mut pairs : List (Bool × String) := []
+  for p in parts do
+    let n := ((p.drop 1).headD "0").toNat?.getD 0
+    let addrs := ((p.drop 2).take n).map fun a => a.toNat?.getD 0
+    let answers := (p.drop (2 + n))
+    if addrs.length != n || answers.length + 1 != max n 1 then
+      throw "depsadjh: malformed block"
+    let l : List SIns := addrs.zipIdx.map fun (a, k) => sinsAt raw n a k
+    pairs := pairs ++ ((l.zip (l.drop 1)).zip answers).map fun ((x, y), a) => (decide (Independent x y), a)
+  let bad := pairs.find? fun (ind, a) => (ind && a != "ok") || a.startsWith "ok-noundo" || a.startsWith "PANIC"
+  let tags := ["adj-history"] ++
+    (if pairs.any (fun (ind, _) => ind) then ["independent"] else []) ++
+    (if pairs.any (fun (ind, _) => !ind) then ["conflict"] else [])
+  return { oracle := bad.map fun (_, a) => s!"after the history an independent adjacent pair cannot be swapped (answer {a})", tags }
+
 /-- `depsemu`: C05 observed end to end — the REAL emulator run over the original and over the moved copy of
 every block, from the same machine state.  The harness reports both runs; the oracle is equality of the final
 states (registers incl. the instruction pointer, memories) whenever the run of the original block completes.
@@ -531,6 +567,7 @@ def depsHandlers : List (String × Handler) := [
   ("deps", Deps.hHistory false),
   ("depsx", Deps.hHistory true),
   ("depsemu", Deps.hDepsEmu),
-  ("depsadj", Deps.hAdj)]
+  ("depsadj", Deps.hAdj),
+  ("depsadjh", Deps.hAdjH)]
 
 end Driver
